@@ -13,6 +13,14 @@ Bounded exhaustive grid: string length 0..6 (plus two non-ASCII strings) x start
            substr/length/greatest/least model registered as user-defined functions.
 
 Oracle: Python s[i:j] / s[i]; index out of range (Python raises IndexError) => '' or NULL accepted.
+
+Second workload (nested_run): every slice/index shape is also embedded in nested contexts -- exists(), count(),
+IN-subqueries, an aggregate in the select list, correlated two-level subqueries, lambda select/filter/where, a query
+over a query, a string attribute reached through a relationship -- and each such program is a real code object that
+is executed REPEATEDLY on the warm Database with different parameter values (all (start, stop) pairs of the grid in a
+seeded order, so consecutive executions change value, sign and None-ness); every single execution is compared with
+Python (SQLite: real result; other dialects: generated SQL under the dialect model).  A string-source family puts
+every kind combination of the grid (const / param / column / None) into exists / IN-subquery / select-list aggregate.
 """
 
 META = {
@@ -28,7 +36,10 @@ META = {
                   'whitelist tokenizer that refuses statements outside the modelled fragment.',
     'rule': 'cases = (dialect path, form, start kind/value, stop kind/value | index kind/value, string); all '
             'combinations enumerated; a case is non-trivial when the string is non-empty or a bound is given; '
-            'fingerprint = that tuple',
+            'fingerprint = that tuple.  Nested/repeated workload: cases = (dialect path, program shape, start, stop '
+            '[, kinds]); 22 code-object shapes x all (start, stop) pairs on SQLite (a seeded subset on the modelled '
+            'dialects in the quick tier) executed consecutively from one code object, plus 3 string-source contexts x '
+            'the kind grid',
     'assumptions': [
         'The unbounded/symbolic quantifier of C25 ("all integers") is out of reach of runtime monitoring; the run '
         'decides the bounded grid length 0..6 x bounds -8..8 (quick) resp. length 0..12 x bounds -15..15 (thorough) only '
@@ -43,12 +54,15 @@ META = {
         'Oracle stores \'\' as NULL: where Python yields \'\' (or raises IndexError) both \'\' and NULL are accepted.',
         'An explicit None bound (p.s[2:None], or a parameter whose value is None) may be rejected loudly by pony; '
         'that is counted (outcome.pony_raised), not a violation.',
+        'The nested/repeated workload is exhaustive over (start, stop) only on SQLite; on the modelled dialects the quick '
+        'tier runs a seeded subset of 48 parameter pairs per shape, the thorough tier 300 pairs per shape. Oracle statements using || '
+        'are not evaluated (NULL/empty-string concatenation is not modelled) and counted as unsupported.',
     ],
     'shims': ['psycopg2', 'MySQLdb', 'cx_Oracle'],
     'exhaustive_tiers': ['quick', 'thorough'],
 }
 SHARDS = {'quick': 1, 'thorough': 12}
-SHARD_TIMEOUT = {'quick': 300, 'thorough': 900}
+SHARD_TIMEOUT = {'quick': 300, 'thorough': 1500}
 
 import re, sqlite3
 
@@ -144,6 +158,7 @@ def register_model(con, model, length_override=None):
     con.create_function('length', 1, length_override or m['length'])
     con.create_function('greatest', -1, m['wrap'](max))
     con.create_function('least', -1, m['wrap'](min))
+    con.create_function('concat', -1, lambda *a: None if any(x is None for x in a) else ''.join(map(str, a)))
 
 
 # ----------------------------------------------------------------------------------------------
@@ -152,10 +167,11 @@ def register_model(con, model, length_override=None):
 TOKEN_RE = re.compile(r"""
     (?P<ws>\s+) | (?P<dq>"(?:[^"]|"")*") | (?P<bq>`(?:[^`]|``)*`) | (?P<str>'(?:[^'\\]|'')*')
   | (?P<pyf>%\((?P<pyname>\w+)\)s) | (?P<fmt>%s) | (?P<pct>%%) | (?P<named>:(?P<nname>[A-Za-z_]\w*)) | (?P<num>:(?P<nidx>\d+))
-  | (?P<qm>\?) | (?P<int>\d+) | (?P<word>[A-Za-z_]\w*) | (?P<op><>|>=|<=|[-+*/=<>(),.])
+  | (?P<qm>\?) | (?P<int>\d+) | (?P<word>[A-Za-z_]\w*) | (?P<op><>|>=|<=|\|\||[-+*/=<>(),.])
 """, re.X)
 WORDS = {'select', 'distinct', 'from', 'where', 'and', 'or', 'not', 'case', 'when', 'then', 'else', 'end', 'is',
-         'null', 'as', 'substr', 'length', 'greatest', 'least', 'coalesce'}
+         'null', 'as', 'substr', 'length', 'greatest', 'least', 'coalesce',
+         'exists', 'in', 'count', 'max', 'concat'}       # nested contexts: subqueries, aggregates, string concatenation
 
 
 def rewrite(sql, args):
@@ -286,6 +302,292 @@ def query_source(q, filter_value=None):
     return src, g
 
 
+
+# ----------------------------------------------------------------------------------------------
+# nested contexts + repeated execution from ONE code object on a warm Database
+# ----------------------------------------------------------------------------------------------
+def nested_shapes():
+    """[(name, form, ncols, build(G, E, x, y, t, k) -> Query, ref(R) -> comparable)].
+    Every `build` is a real Python code object (generator expression / lambda), so calling it again with other
+    x / y re-executes the SAME query code with different parameter values (translator and SQL caches are warm).
+    R: namespace with items [(id, s, gid)], by_g {gid: [(id, s)]}, tags, sl(s), ix(s), eq(a, b), t, tc, t2, k."""
+    from pony.orm import select, exists, count, max as pmax
+    S = []
+    def add(name, form, ncols, build, ref): S.append((name, form, ncols, build, ref))
+    ids_where = lambda R, pred: sorted(i for (i, s, g) in R.items if pred(i, s, g))
+    groups_where = lambda R, pred: sorted(g for g in R.tags if pred(R.by_g.get(g, [])))
+    # -- slices ---------------------------------------------------------------------------------
+    add('top_proj', 'slice', 2, lambda G, E, x, y, t, k: select((p.id, p.s[x:y]) for p in E if p.g is not None),
+        lambda R: sorted((i, R.sl(s)) for (i, s, g) in R.items))
+    add('select_lambda', 'slice', 1, lambda G, E, x, y, t, k: E.select(lambda p: p.g is not None and p.s[x:y] == t),
+        lambda R: ids_where(R, lambda i, s, g: R.eq(R.sl(s), R.t)))
+    add('filter_lambda', 'slice', 1, lambda G, E, x, y, t, k: select(p for p in E if p.g is not None).filter(lambda p: p.s[x:y] == t),
+        lambda R: ids_where(R, lambda i, s, g: R.eq(R.sl(s), R.t)))
+    add('where_lambda', 'slice', 1, lambda G, E, x, y, t, k: select(p for p in E if p.g is not None).where(lambda p: p.s[x:y] == t),
+        lambda R: ids_where(R, lambda i, s, g: R.eq(R.sl(s), R.t)))
+    add('query_over_query', 'slice', 1,
+        lambda G, E, x, y, t, k: select(p.id for p in select(q for q in E if q.g is not None and q.s[x:y] == t)),
+        lambda R: ids_where(R, lambda i, s, g: R.eq(R.sl(s), R.t)))
+    add('exists', 'slice', 1, lambda G, E, x, y, t, k: select(g.id for g in G if exists(p for p in g.items if p.s[x:y] == t)),
+        lambda R: groups_where(R, lambda its: any(R.eq(R.sl(s), R.t) for i, s in its)))
+    add('filter_exists', 'slice', 1, lambda G, E, x, y, t, k: G.select().filter(lambda g: exists(p for p in g.items if p.s[x:y] == t)),
+        lambda R: groups_where(R, lambda its: any(R.eq(R.sl(s), R.t) for i, s in its)))
+    add('count_ge', 'slice', 1, lambda G, E, x, y, t, k: select(g.id for g in G if count(p for p in g.items if p.s[x:y] == t) >= k),
+        lambda R: groups_where(R, lambda its: sum(1 for i, s in its if R.eq(R.sl(s), R.t)) >= R.k))
+    add('const_in_subquery', 'slice', 1, lambda G, E, x, y, t, k: select(g.id for g in G if t in (p.s[x:y] for p in g.items)),
+        lambda R: groups_where(R, lambda its: any(R.eq(R.sl(s), R.t) for i, s in its)))
+    add('slice_in_subquery', 'slice', 1,
+        lambda G, E, x, y, t, k: select(p.id for p in E if p.g is not None and p.s[x:y] in (q.s[x:y] for q in E if q.g is not None and q.id != p.id)),
+        lambda R: ids_where(R, lambda i, s, g: any(R.eq(R.sl(s), R.sl(s2)) for (i2, s2, g2) in R.items if i2 != i)))
+    add('nested2', 'slice', 1,
+        lambda G, E, x, y, t, k: select(g.id for g in G if exists(p for p in g.items if exists(
+            q for q in E if q.g == g and q.id != p.id and q.s[x:y] == p.s[x:y]))),
+        lambda R: groups_where(R, lambda its: any(R.eq(R.sl(s), R.sl(s2)) for i, s in its for i2, s2 in its if i2 != i)))
+    add('lifted_to_one', 'slice', 1, lambda G, E, x, y, t, k: select(p.id for p in E if p.g.tag[x:y] == t),
+        lambda R: ids_where(R, lambda i, s, g: R.eq(R.sl(R.tags[g]), R.t2)))
+    add('max_in_select', 'slice', 2, lambda G, E, x, y, t, k: select((g.id, pmax(p.s[x:y] for p in g.items)) for g in G),
+        lambda R: sorted((g, R.smax([R.sl(s) for i, s in R.by_g.get(g, [])])) for g in R.tags))
+    add('len_of_slice', 'slice', 1, lambda G, E, x, y, t, k: select(g.id for g in G if exists(p for p in g.items if len(p.s[x:y]) == k)),
+        lambda R: groups_where(R, lambda its: any(len(R.sl(s)) == R.k for i, s in its)))
+    add('concat_const', 'slice', 1, lambda G, E, x, y, t, k: select(g.id for g in G if exists(p for p in g.items if p.s[x:y] + 'z' == t + 'z')),
+        lambda R: groups_where(R, lambda its: any(R.sl(s) == R.t for i, s in its)))
+    add('proj_with_correlated_exists', 'slice', 2,
+        lambda G, E, x, y, t, k: select((p.id, p.s[x:y]) for p in E if p.g is not None and exists(
+            q for q in p.g.items if q.id != p.id and q.s[x:y] == p.s[x:y])),
+        lambda R: sorted((i, R.sl(s)) for (i, s, g) in R.items
+                         if any(R.eq(R.sl(s), R.sl(s2)) for i2, s2 in R.by_g[g] if i2 != i)))
+    # -- indexes --------------------------------------------------------------------------------
+    add('ix_top_proj', 'index', 2, lambda G, E, x, y, t, k: select((p.id, p.s[x]) for p in E if p.g is not None),
+        lambda R: sorted((i, R.ix(s)) for (i, s, g) in R.items))
+    add('ix_select_lambda', 'index', 1, lambda G, E, x, y, t, k: E.select(lambda p: p.g is not None and p.s[x] == t),
+        lambda R: ids_where(R, lambda i, s, g: R.ix(s) == R.tc))
+    add('ix_exists', 'index', 1, lambda G, E, x, y, t, k: select(g.id for g in G if exists(p for p in g.items if p.s[x] == t)),
+        lambda R: groups_where(R, lambda its: any(R.ix(s) == R.tc for i, s in its)))
+    add('ix_count', 'index', 1, lambda G, E, x, y, t, k: select(g.id for g in G if count(p for p in g.items if p.s[x] == t) >= 1),
+        lambda R: groups_where(R, lambda its: any(R.ix(s) == R.tc for i, s in its)))
+    add('ix_const_in_subquery', 'index', 1, lambda G, E, x, y, t, k: select(g.id for g in G if t in (p.s[x] for p in g.items)),
+        lambda R: groups_where(R, lambda its: any(R.ix(s) == R.tc for i, s in its)))
+    add('ix_filter_exists', 'index', 1, lambda G, E, x, y, t, k: G.select().filter(lambda g: exists(p for p in g.items if p.s[x] == t)),
+        lambda R: groups_where(R, lambda its: any(R.ix(s) == R.tc for i, s in its)))
+    return S
+
+
+class _R(object):
+    pass
+
+
+def nested_run(ctx, dbs, base, group_of, TAGS, eval_con, agg):
+    """Every slice/index shape embedded in nested contexts (exists / count / in-subqueries / aggregates in the
+    select list / lambda filters / query over query / attribute lifted through a relationship) and executed
+    REPEATEDLY from the same code object with different parameter values (sign changes, None) on a warm
+    Database; every single execution is compared with Python."""
+    import collections
+    from pony.orm import db_session
+    shapes = nested_shapes()
+    shapes = [sh for i, sh in enumerate(shapes) if i % ctx.nshards == ctx.shard % max(1, min(ctx.nshards, len(shapes)))] \
+        if ctx.nshards > 1 else shapes
+    items = [(i, s, group_of[i]) for (i, s) in base]
+    by_g = {}
+    for (i, s, g) in items: by_g.setdefault(g, []).append((i, s))
+    rng = ctx.subrng('nested', ctx.shard)
+    bounds = list(VALUES) + [None]
+    pairs = [(x, y) for x in bounds for y in bounds]
+    full = ctx.tier == 'thorough'
+    ctx.extra['nested_shapes'] = [sh[0] for sh in nested_shapes()]
+
+    def most_common(values, fallback):
+        c = collections.Counter(v for v in values if v not in ('', OOR, None))
+        return sorted(c.items(), key=lambda kv: (-kv[1], kv[0]))[0][0] if c else fallback
+
+    def make_R(x, y, nullish, slfn):
+        R = _R()
+        R.items, R.by_g, R.tags, R.k = items, by_g, TAGS, 2
+        R.sl = lambda s: slfn(s, x, y)
+        R.ix = lambda s: py_index(s, x) if x is not None else OOR
+        R.eq = (lambda a, b: a == b and a != '') if nullish else (lambda a, b: a == b)
+        def smax(vals):
+            vals = [v for v in vals if v is not None and not (nullish and v == '')]
+            return max(vals) if vals else None
+        R.smax = smax
+        return R
+
+    def targets(x, y):
+        t = most_common([s[x:y] for i, s in base], 'zz')
+        t2 = most_common([tg[x:y] for tg in TAGS.values()], 'zz')
+        tc = most_common([py_index(s, x) for i, s in base], 'q') if x is not None else 'q'
+        return t, t2, tc
+
+    def norm(val, ncols, nullish, form):
+        out = []
+        for r in val:
+            if ncols == 1: out.append(r[0] if isinstance(r, tuple) else r)
+            else:
+                v = r[1]
+                if v == OOR: v = None
+                if v == '' and (nullish or form == 'index'): v = None
+                out.append((r[0], v))
+        return sorted(out, key=repr)
+
+    def signature(path, judge, name, x, y, err):
+        sg = lambda v: 'none' if v is None else ('neg' if v < 0 else 'nonneg')
+        return '%s/%s nested %s x=%s y=%s%s' % (path, judge, name, sg(x), sg(y), ' ERROR' if err else '')
+
+    # ---- string-source family: every kind combination of the top-level grid (const / param / column / None) inside
+    # ---- exists(), an IN-subquery and an aggregate in the select list --------------------------------------------------
+    from pony.orm import select as _select, exists as _exists, max as _pmax, count as _count
+    CONTEXTS = [('src_exists', 1, 'g.id for g in G if exists(p for p in g.items if %s == t)',
+                 lambda R, f: sorted(g for g in R.tags if any(R.eq(f(R, s), R.tt) for i, s in R.by_g.get(g, [])))),
+                ('src_in_subquery', 1, 'g.id for g in G if t in (%s for p in g.items)',
+                 lambda R, f: sorted(g for g in R.tags if any(R.eq(f(R, s), R.tt) for i, s in R.by_g.get(g, [])))),
+                ('src_max_in_select', 2, '(g.id, max(%s for p in g.items)) for g in G',
+                 lambda R, f: sorted((g, R.smax([(None if f(R, s) == OOR else f(R, s)) for i, s in R.by_g.get(g, [])])) for g in R.tags))]
+    src_shapes = []
+    for cname, ncols, tmpl, cref in CONTEXTS:
+        def build(G, E, x, y, t, k, meta, tmpl=tmpl):
+            q = meta
+            if q['form'] == 'slice':
+                expr = 'p.s[%s:%s]' % (bound_src(q['sk'], q['sv'], 'x', 'a'), bound_src(q['ek'], q['ev'], 'y', 'b'))
+            else:
+                expr = 'p.s[%s]' % bound_src(q['ik'], q['iv'], 'x', 'a')
+            g = {'G': G, 'E': E, 't': t, 'exists': _exists, 'max': _pmax, 'count': _count}
+            if q.get('sk') in ('param', 'none_param') or q.get('ik') in ('param', 'none_param'): g['x'] = q.get('sv') if q['form'] == 'slice' else q['iv']
+            if q.get('ek') in ('param', 'none_param'): g['y'] = q['ev']
+            return _select(tmpl % expr, g)
+        def ref(R, cref=cref):
+            if R.form == 'slice': return cref(R, lambda R_, s_: R_.sl(s_))
+            return cref(R, lambda R_, s_: R_.ix(s_))
+        src_shapes.append((cname, 'src', ncols, build, ref))
+    if ctx.nshards > 1:
+        src_shapes = [sh for i, sh in enumerate(src_shapes) if i % ctx.nshards == (ctx.shard + 5) % ctx.nshards]
+    src_plan = plan()
+
+    for (name, form, ncols, build, ref) in shapes + src_shapes:
+        if form == 'slice':
+            sched = [(x, y, None) for (x, y) in pairs]; rng.shuffle(sched)
+        elif form == 'index':
+            sched = [(x, None, None) for x in bounds] * 3; rng.shuffle(sched)
+        else:
+            sched = []
+            for q in src_plan:
+                if q['form'] == 'slice':
+                    sched.append((0 if q['sk'] == 'expr' else q['sv'], 0 if q['ek'] == 'expr' else q['ev'], q))
+                elif name != 'src_max_in_select' or True:
+                    sched.append((0 if q['ik'] == 'expr' else q['iv'], None, q))
+            rng.shuffle(sched)
+            if not full: sched = sched[:len(sched) // 3]      # quick: a seeded third of the kind grid per context
+        for path in PATHS:
+            db, E = dbs[path]
+            G = db.G
+            if form == 'src': todo = sched if path == 'sqlite' else sched[:400 if full else 40]
+            else: todo = sched if path == 'sqlite' else sched[:300 if full else 48]
+            prev = None
+            for (x, y, meta) in todo:
+                cform = form if meta is None else meta['form']
+                t, t2, tc = targets(x, y)
+                tval = tc if cform == 'index' else (t2 if name == 'lifted_to_one' else t)
+                kval = 2 if name == 'count_ge' else 1
+                none_kind = meta is not None and any(meta.get(kk) in ('none_const', 'none_param') for kk in ('sk', 'ek', 'ik'))
+                ctx.count('nested.executions.%s' % path)
+                before = prev
+                if prev is not None and prev != (x, y): ctx.count('nested.reexecutions_with_changed_params')
+                prev = (x, y)
+                res = sql = args = None
+                with db_session:
+                    try:
+                        query = build(G, E, x, y, tval, kval) if meta is None else build(G, E, x, y, tval, kval, meta)
+                        sql, args, _, _ = query._construct_sql_and_arguments()
+                        if path == 'sqlite':
+                            res = [(r.id if hasattr(r, '_pkval_') else r) for r in query[:]]
+                    except Exception as e:
+                        if (cform == 'index' and x is None) or none_kind:
+                            ctx.count('outcome.pony_raised'); ctx.count('outcome.pony_raised.' + type(e).__name__)
+                            ctx.case((path, 'nested-raised', name, repr(meta)), nontrivial=False)
+                            continue
+                        ctx.count('outcome.pony_raised_unexpected')
+                        ent = agg.setdefault('%s nested %s raised %s' % (path, name, type(e).__name__),
+                                             [0, {'path': path, 'shape': name, 'x': x, 'y': y, 'kinds': meta, 'error': repr(e)[:300]}])
+                        ent[0] += 1
+                        continue
+                if none_kind and cform == 'index':
+                    ctx.count('outcome.unsupported'); continue
+                for judge in JUDGES[path]:
+                    nullish = judge == 'oracle'
+                    err, got, rerun = None, None, None
+                    if path == 'sqlite':
+                        got = res
+                    else:
+                        rw = rewrite(sql, args)
+                        if rw is None or (judge == 'oracle' and '||' in rw[0]):
+                            ctx.count('outcome.unsupported'); ctx.count('outcome.unsupported.nested.%s' % path)
+                            if ctx.counters.get('outcome.unsupported', 0) <= 3:
+                                ctx.extra.setdefault('unsupported_examples', []).append({'path': path, 'sql': sql})
+                            continue
+                        try: got = eval_con(path, judge).execute(rw[0], rw[1]).fetchall()
+                        except sqlite3.Error as e:
+                            err = '%s: %s' % (type(e).__name__, e)
+                            if 'user-defined function raised exception' in err:
+                                err = probe_error(eval_con(path, judge), rw, judge) or err
+                        if judge == 'mysql':
+                            def rerun(rw=rw, path=path):
+                                try: return eval_con(path, 'mysql', _length_chars).execute(rw[0], rw[1]).fetchall()
+                                except sqlite3.Error: return None
+                    def make(fn):
+                        R = make_R(x, y, nullish, fn)
+                        R.t, R.t2, R.tc, R.k, R.form = t, t2, tc, kval, cform
+                        R.tt = tc if cform == 'index' else t
+                        return R
+                    exp = ref(make(py_slice))
+                    ctx.case((path, judge, 'nested', name, x, y, repr(meta)), nontrivial=True,
+                             sample=None if ctx.evaluations % 3001 else {'path': path, 'model': judge, 'shape': name, 'x': x, 'y': y,
+                                                                          'target': tval, 'sql': sql, 'got': repr(got)[:200], 'python': repr(exp)[:200]})
+                    ctx.count('nested.cells'); ctx.count('nested.cells.%s' % name)
+                    w = {'path': path, 'model': judge, 'shape': name, 'context': 'nested/repeated', 'x': x, 'y': y, 'kinds': meta,
+                         'target': tval, 'sql': sql, 'args': repr(args), 'got': repr(got)[:400], 'error': err, 'python': repr(exp)[:400],
+                         'previous_params_of_this_code_object': before}
+                    nf = 'index' if cform == 'index' else 'slice'
+                    if err is None and norm(got, ncols, nullish, nf) == norm(exp, ncols, nullish, nf):
+                        ctx.count('outcome.agree'); ctx.count('nested.agree')
+                        if exp: ctx.count('nested.agree_nonempty')
+                        continue
+                    # deviation rules (same mechanisms as for the top-level grid), re-evaluated on the whole result
+                    found = None
+                    devs = []
+                    CP = (OMIT, 'const', 'param')
+                    mk = None if meta is None else {kk: (OMIT if vv in ('none_const', 'none_param') else vv) for kk, vv in meta.items()}
+                    consts = mk is None or (mk.get('sk') in CP and mk.get('ek') in ('const', 'param'))
+                    if cform == 'slice':
+                        if consts and y == -1 and x in (None, 0): devs.append((['C25-SLICE-STOP-MINUS-ONE'], dev_stop_minus_one))
+                        if mk is not None and mk.get('ek') == 'expr' and mk.get('sk') in CP and x in (None, 0):
+                            devs.append((['C25-SLICE-EXPR-STOP-IGNORED'], lambda s_, a_, b_: s_))
+                        if judge in ('mysql', 'oracle') and x is not None and x < 0:
+                            devs.append((['C25-GENERIC-NEG-START-BEYOND-LENGTH'], lambda s_, a_, b_: '' if -a_ > len(s_) else s_[a_:b_]))
+                            devs.append((['C25-GENERIC-NEG-START-NONNEG-STOP'] if (y is not None and y >= 0) else
+                                         ['C25-GENERIC-NEG-START-BEYOND-LENGTH'], dev_generic_negative_start))
+                    def ref_with(fn):
+                        return norm(ref(make(fn)), ncols, nullish, nf)
+                    if err is None:
+                        for fids, fn in devs:
+                            if norm(got, ncols, nullish, nf) == ref_with(fn): found = fids; break
+                        if found is None and rerun is not None:
+                            got2 = rerun()
+                            if got2 is not None:
+                                g2 = norm(got2, ncols, nullish, nf)
+                                for fids, fn in [([], py_slice)] + devs:
+                                    if g2 == ref_with(fn): found = ['C25-MYSQL-LENGTH-BYTES'] + fids; break
+                    elif judge == 'postgres' and 'negative substring length' in err and cform == 'slice' \
+                            and (meta is None or (meta['sk'] in ('const', 'param') and meta['ek'] in ('const', 'param'))) \
+                            and x is not None and y is not None and y < x and (x >= 0) == (y >= 0):
+                        found = ['C25-PG-NEGATIVE-LENGTH']
+                    if found:
+                        for fid in found:
+                            ctx.count('outcome.known_mechanism.' + fid)
+                            ctx.finding(fid, w)
+                    else:
+                        ctx.count('outcome.disagree'); ctx.count('nested.disagree')
+                        ent = agg.setdefault(signature(path, judge, name, x, y, err), [0, w])
+                        ent[0] += 1
+
+
 # ----------------------------------------------------------------------------------------------
 def run(ctx):
     from pony.orm import Database, Required, Optional, db_session, select, flush
@@ -304,9 +606,17 @@ def run(ctx):
                 rows.append((rid, s, a, b))
     by_id = {r[0]: r for r in rows}
 
+    from pony.orm import PrimaryKey, Set
     def define(db):
-        a_s = Optional(str); a_a = Required(int); a_b = Required(int)
-        return type('E', (db.Entity,), {'s': a_s, 'a': a_a, 'b': a_b})
+        G = type('G', (db.Entity,), {'id': PrimaryKey(int), 'tag': Optional(str), 'items': Set('E')})
+        a_s = Optional(str); a_a = Required(int); a_b = Required(int); a_g = Optional('G')
+        E = type('E', (db.Entity,), {'s': a_s, 'a': a_a, 'b': a_b, 'g': a_g})
+        return E
+
+    # nested-context data: the rows with a == b == 0 (one per string) are spread over groups 1..4; group 5 stays empty
+    base = [(i, s_) for (i, s_, a, b) in rows if a == 0 and b == 0]
+    group_of = {i: k % 4 + 1 for k, (i, s_) in enumerate(base)}
+    TAGS = {1: '', 2: 'x', 3: 'tuv', 4: 'tuvwxyz', 5: 'é€x'}
 
     # -- databases per path ---------------------------------------------------------------
     dbs = {}
@@ -324,7 +634,10 @@ def run(ctx):
     # populate the real SQLite database through pony, in chunks
     db, E = dbs['sqlite']
     with db_session:
-        for (i, s, a, b) in rows: E(id=i, s=s, a=a, b=b)
+        Gs = {k: db.G(id=k, tag=t_) for k, t_ in TAGS.items()}
+        for (i, s, a, b) in rows:
+            if i in group_of: E(id=i, s=s, a=a, b=b, g=Gs[group_of[i]])
+            else: E(id=i, s=s, a=a, b=b)
 
     # -- evaluation connections: one per (path, judge model) --------------------------------
     evals = {}
@@ -337,10 +650,15 @@ def run(ctx):
         q = lambda n: '"%s"' % n.replace('"', '""')
         t = E._table_
         t = t if isinstance(t, str) else t[-1]
-        cols = [E.id.column, E.s.column, E.a.column, E.b.column]
+        cols = [E.id.column, E.s.column, E.a.column, E.b.column, E.g.column]
         con.execute('create table %s (%s)' % (q(t), ', '.join(q(c) for c in cols)))
-        data = [(i, (None if (model == 'oracle' and s == '') else s), a, b) for (i, s, a, b) in rows]
-        con.executemany('insert into %s values (?,?,?,?)' % q(t), data)
+        nul = lambda v: None if (model == 'oracle' and v == '') else v
+        data = [(i, nul(s), a, b, group_of.get(i)) for (i, s, a, b) in rows]
+        con.executemany('insert into %s values (?,?,?,?,?)' % q(t), data)
+        G = E._database_.G
+        gt = G._table_ if isinstance(G._table_, str) else G._table_[-1]
+        con.execute('create table %s (%s, %s)' % (q(gt), q(G.id.column), q(G.tag.column)))
+        con.executemany('insert into %s values (?,?)' % q(gt), [(k, nul(t_)) for k, t_ in TAGS.items()])
         evals[key] = con
         return con
 
@@ -509,6 +827,8 @@ def run(ctx):
                 judge_rows(path, judge, qj, src, g, result, err, sql, rerun)
         if len(sql_cache) > 20000: sql_cache.clear()
 
+    nested_run(ctx, dbs, base, group_of, TAGS, eval_con, agg)
+
     for sig, (n, w) in sorted(agg.items()):
         w = dict(w, cells_with_this_signature=n)
         ctx.violation(w, mechanism=sig[:120])
@@ -518,6 +838,9 @@ def run(ctx):
     per = max(1, len(mine))
     for path in PATHS:
         ctx.floor('cells.%s' % path, 5 * per)
+        ctx.floor('nested.executions.%s' % path, 150)
+    ctx.floor('nested.agree_nonempty', 300)
+    ctx.floor('nested.reexecutions_with_changed_params', 300)
     ctx.floor('outcome.agree_nonempty', 10 * per)
     for c in evals.values(): c.close()
 
